@@ -68,7 +68,8 @@ theorem tie_parseConfig_full (env : CfgEnv) (pep : Str → Str) (raw : RawCfg) :
   rcases h4 : lookup "version_pattern".toList raw.opts with _ | (vp | _ | _) <;>
     simp only [Py.strOf, Except.map, Except.mapError, pyClass_notAString, pyClass_keyError]
   -- _validate_version_with_pattern, _compile_file_patterns (parameters)
-  simp only [validateOf, compileOf, rawStr, require, isNew_fold, isNew_fold', lookup_setOpt_eq, Option.getD_some]
+  simp only [validateOf, compileOf, rawStr, require, Bool.not_or, isNew_fold, isNew_fold', lookup_setOpt_eq,
+    Option.getD_some]
   generalize env.validVersion _ _ _ = vv
   cases vv <;>
     simp only [Bool.false_eq_true, if_false, if_true, Except.map, Except.mapError, pyClass_invalidVersion]
